@@ -40,5 +40,5 @@ def is_orthonormal(vectors: list[np.ndarray]) -> bool:
 
     """
     return is_mutually_orthogonal(vectors) and np.allclose(
-        np.dot(vectors, np.conjugate(vectors).T), np.eye(vectors.shape[0])
+        np.dot(vectors, np.conjugate(vectors).T), np.eye(len(vectors))
     )
